@@ -11,12 +11,12 @@ wt=/tmp/trial_repo_$id; vc=/tmp/trial_verif_$id
 git -C /repo worktree add --detach $wt HEAD -q || exit 2
 trap 'git -C /repo worktree remove --force '$wt' 2>/dev/null; rm -rf '$vc'' EXIT
 if [ "$demo" != "-" ]; then
-  (cd $wt && PYTHONPATH=$wt /venv/bin/python $demo >/dev/null 2>&1); echo "demo without change: exit $?"
+  (cd $wt && PYTHONPATH=$wt /venv/bin/python $demo >/dev/null 2>&1; echo "demo without change: exit $?")
 fi
 git -C $wt apply "$patch" || { echo "patch does not apply"; exit 2; }
-(cd $wt && PYTHONPATH=$wt /venv/bin/python -m pytest -q -p no:cacheprovider tests 2>&1 | tail -1)
+echo "tests with change: $(cd $wt && PYTHONPATH=$wt /venv/bin/python -m pytest -q -p no:cacheprovider tests 2>&1 | tail -1)"
 if [ "$demo" != "-" ]; then
-  (cd $wt && PYTHONPATH=$wt /venv/bin/python $demo 2>&1 | tail -3); echo "demo with change: exit ${PIPESTATUS[0]}"
+  (cd $wt && PYTHONPATH=$wt /venv/bin/python $demo > /tmp/demo_out_$id.txt 2>&1; echo "demo with change: exit $?"; tail -2 /tmp/demo_out_$id.txt; rm -f /tmp/demo_out_$id.txt)
 fi
 mkdir -p $vc && rsync -a --exclude .git --exclude replays /verif/ $vc/
 for p in "$@"; do
